@@ -1,5 +1,7 @@
 package tokenizer
 
+import "unicode/utf8"
+
 // ByteClass says which lexical region a byte of SQL text belongs to.
 type ByteClass uint8
 
@@ -65,7 +67,27 @@ func ClassifyBytesWith(text string, backslashEscapes bool) []ByteClass {
 						j += 2
 						continue
 					}
+					if c != '`' && j+1 < n && text[j+1] >= 0x80 {
+						// ' followed by a typographic quote of its kind is a doubled quote too
+						if rn, sn := utf8.DecodeRuneInString(text[j+1:]); normalizeQuote(rn) == rune(c) {
+							j += 1 + sn
+							continue
+						}
+					}
 					break
+				}
+				if c != '`' && text[j] >= 0x80 {
+					// a typographic quote of the same kind closes (or, doubled, continues) the literal as well
+					if rj, sj := utf8.DecodeRuneInString(text[j:]); normalizeQuote(rj) == rune(c) {
+						if j+sj < n {
+							if rn, sn := utf8.DecodeRuneInString(text[j+sj:]); normalizeQuote(rn) == rune(c) {
+								j += sj + sn
+								continue
+							}
+						}
+						j += sj - 1 // the closing delimiter ends at j+1 below
+						break
+					}
 				}
 				if c == '"' && text[j] == '\n' {
 					// a quoted identifier cannot span lines: treat the
@@ -81,6 +103,44 @@ func ClassifyBytesWith(text string, backslashEscapes bool) []ByteClass {
 			}
 			mark(i, end, ByteLiteral)
 			i = end
+		case c >= 0x80:
+			// the tokenizer also takes typographic quotes for string and name
+			// delimiters (U+2018, U+2019, guillemets; U+201C, U+201D), any of
+			// them closing what any other of its kind, or the ASCII quote, opened
+			r, size := utf8.DecodeRuneInString(text[i:])
+			q := normalizeQuote(r)
+			if q == r {
+				i += size
+				continue
+			}
+			j := i + size
+			for j < n {
+				rj, sj := utf8.DecodeRuneInString(text[j:])
+				if backslashEscapes && q == '\'' && rj == '\\' && j+1 < n {
+					_, s2 := utf8.DecodeRuneInString(text[j+1:])
+					j += 1 + s2
+					continue
+				}
+				if normalizeQuote(rj) == q {
+					if j+sj < n {
+						if rn, sn := utf8.DecodeRuneInString(text[j+sj:]); normalizeQuote(rn) == q {
+							j += sj + sn
+							continue
+						}
+					}
+					j += sj
+					break
+				}
+				if q == '"' && rj == '\n' {
+					break
+				}
+				j += sj
+			}
+			if j > n {
+				j = n
+			}
+			mark(i, j, ByteLiteral)
+			i = j
 		case c == '-' && i+1 < n && text[i+1] == '-':
 			j := i
 			for j < n && text[j] != '\n' {
